@@ -15,7 +15,7 @@ Decided here (structural clauses only; the algebra of CanonicalizePath over all 
 """
 from facts import AnalysisBroken
 from model import dstr, strip, walk, mentions_var, mentions_field, mentions_call, const_value
-from rules import INTERN, intern_site_status, origins, must_pass, lastname
+from rules import INTERN, intern_site_status, origins, must_pass, lastname, loops_over, loop_blocks, calls_to
 from zone import Analysis, Zone, ZERO, INF
 
 
@@ -291,6 +291,77 @@ def run(ctx):
                   'an include is canonicalised before CLParser collects it', witness=None if bad is None else {'blocks': bad[0]})
     ctx.check('C14.CN', bool(ins), clp.name, 'CLParser:no-insert', clp.loc, 'CLParser::Parse collects includes')
     ctx.floor('C14.CN', 24)
+
+    # ---- CM: names compared with node identities -------------------------------------------------------
+    R('C14.CM', 'CN', 'a name that is not interned but *compared* with node paths / build-log keys is canonical too: every output a '
+      'depfile names is canonicalised before it is matched against the edge\'s outputs, and the outputs named on the command line of '
+      '`-t restat` are canonicalised before BuildLog::Restat compares them with the log')
+    ncm = 0
+    for f in sorted(prog.functions.values(), key=lambda g: g.name):
+        if f.file.endswith('_test.cc') or f.cls == 'DepfileParser':
+            continue
+        for l in loops_over(f, 'DepfileParser::outs_'):
+            v = l['var']
+            body = loop_blocks(f, l)
+
+            def plumbing(e):
+                nm = lastname(e.get('name') or '')
+                return nm.startswith('operator') or nm in ('__normal_iterator', 'begin', 'end') or e.get('name') == 'CanonicalizePath'
+            uses = [e for b in body for e in f.blocks[b]['ev'] if e['k'] == 'call' and not plumbing(e) and
+                    (any(mentions_var(a, v) for a in e.get('args') or []) or mentions_var(e.get('recv'), v))]
+            if not uses:
+                continue
+            ncm += 1
+
+            def canon_of(var):
+                return lambda x: x['k'] == 'call' and x.get('name') == 'CanonicalizePath' and any(mentions_var(a, var) for a in x.get('args') or [])
+            # an element that is the same object as one canonicalised before the loop needs nothing more
+            done_before = {x['n'] for e in f.events('call') if canon_of(None) is not None and e.get('name') == 'CanonicalizePath' and
+                           f.dominates_block(e['_b'], l['header']) for a in e.get('args') or [] for x in walk(a) if isinstance(x, dict) and x.get('k') == 'var'}
+
+            def same_as_done(b, i, s2):
+                for key, pol, atom in f.edge_facts(b, i, all=True):
+                    a = strip(atom)
+                    if pol and isinstance(a, dict) and a.get('k') == 'call' and lastname(a.get('name') or '').startswith('operator==') and \
+                            mentions_var(a, v) and any(mentions_var(a, d) for d in done_before):
+                        return False
+                return True
+            first = uses[0]
+            r = f.find_path(None, lambda x: any(x is u for u in uses), from_succ=l['body'], is_blocker=canon_of(v), edge_ok=same_as_done)
+            ctx.check('C14.CM', r is None, f.name, 'depfile-output:compared-uncanonical', f.where(first),
+                      'every element of DepfileParser::outs_ is canonicalised before %s uses it (`%s`)' % (f.name, (first.get('src') or '')[:50]),
+                      witness=None if r is None else {'blocks': r[0]})
+    ctx.check('C14.CM', ncm >= 1, 'ImplicitDepLoader::LoadDepFile', 'depfile-output:no-loop', 'src/graph.cc:1',
+              'a loader walks the outputs a depfile names (%d loops)' % ncm)
+    for f, e in calls_to(prog, 'BuildLog::Restat'):
+        if f.file.endswith('_test.cc'):
+            continue
+        names = [x['n'] for x in walk(e['args'][3] if len(e.get('args') or []) > 3 else None) if isinstance(x, dict) and x.get('k') == 'var']
+        cnt = [x['n'] for x in walk(e['args'][2] if len(e.get('args') or []) > 2 else None) if isinstance(x, dict) and x.get('k') == 'var']
+        ok = False
+        for bid, b in f.blocks.items():
+            t = b.get('term')
+            if not t or t['kind'] not in ('for', 'while', 'range') or len(b['succ']) != 2 or not f.dominates_block(bid, e['_b']):
+                continue
+            c = dstr(f.eff_cond(bid))
+            if not any(n in c for n in cnt):
+                continue
+            loop = {'header': bid, 'body': b['succ'][0], 'line': t.get('line'), 'bound': c}
+            hit = [None]
+
+            def edge_ok(b2, i2, s2, bid=bid):
+                if s2 == bid:
+                    hit[0] = b2
+                    return False
+                return True
+            f.find_path(None, lambda x: False, from_succ=loop['body'], edge_ok=edge_ok,
+                        is_blocker=lambda x: x['k'] == 'ret' or (x['k'] == 'call' and x.get('name') == 'CanonicalizePath' and
+                                                                any(mentions_var(a, n) for a in x.get('args') or [] for n in names)))
+            if hit[0] is None:
+                ok = True
+        ctx.check('C14.CM', ok, f.name, 'restat:arguments-compared-uncanonical', f.where(e),
+                  'the names handed to BuildLog::Restat are canonicalised in a loop over all of them first (%s, %s)' % (names, cnt))
+    ctx.floor('C14.CM', 3)
 
     # ---- ID: identity is the byte string ----------------------------------------------------------------
     R('C14.ID', 'TA', 'a node is found and stored under exactly the string it was asked for; equality of table keys is '
